@@ -117,6 +117,58 @@ def multi_alphabet():
             for cx in ('c0', 'c1', 'c2') for cy in ('c0', 'c1', 'c2')]
 
 
+def work_retry(args):
+    '''an update that fails half-way (a later value cannot be pickled) and is
+    retried by the same task object after the value was repaired: over both
+    attempts every content that entered the store is reported new by at least
+    one entry, and nothing that was already there is'''
+    tier, seed = args
+    import dawgie.db
+    from dawgie.db.shelve.state import DBI
+    from . import world, mini
+
+    ctx = common.Ctx('C07', tier, seed, LEVEL)
+    for pre in ((), ('c0',), ('c1',)):
+        for cx in ('c0', 'c1'):
+            for cy in ('c0', 'c1', 'c2'):
+                w = world.StoreWorld()
+                rep = {'tier': 'retry', 'already_stored': list(pre), 'x': cx, 'y': cy}
+                try:
+                    for i, c in enumerate(pre):
+                        do_update((9, 'Z', 'z%d' % i, c))
+                    vals = {'x': mini.Val(cx), 'y': mini.Val(lambda: None)}     # y cannot be pickled
+                    a = mini.Alg('a', svs=[mini.SV('s', values=vals)])
+                    b = mini.Bot('t', 1, 'A', [a])
+                    DBI()._DBI__reopened = True
+                    ctx.count('retried_updates')
+                    try:
+                        ds = dawgie.db.connect(a, b, 'A')
+                        try:
+                            ds.update()
+                            first = 'returned'
+                        except Exception as e:  # noqa
+                            first = type(e).__name__
+                        a.state_vectors()[0]['y'] = mini.Val(cy)
+                        ds.update()
+                    except Exception as e:  # noqa
+                        ctx.violation(f'C07/retry/second-attempt-raises/{type(e).__name__}', f'{e!r}', rep)
+                        continue
+                    finally:
+                        DBI()._DBI__reopened = False
+                    seen = set(pre)
+                    for k, c in (('x', cx), ('y', cy)):
+                        flags = [new for n, new in b.new_values() if n.endswith('.s.' + k)]
+                        want = c not in seen
+                        seen.add(c)
+                        if any(flags) != want:
+                            ctx.violation('C07/retry/novelty-' + ('lost' if want else 'invented'),
+                                          f'first attempt {first}; value {k}={c}: reports {flags}, '
+                                          f'content was {"not " if want else ""}in the store before', rep)
+                finally:
+                    w.close()
+    return ctx.export()
+
+
 def work_free(args):
     tier, seed, shard, nshards, depth = args
     from . import world
@@ -521,6 +573,8 @@ def run(ctx):
         ctx.merge(r)
         states.update(r['outcomes'])
         ctx.sample(r['sample'])
+    for r in common.pmap(work_retry, [(ctx.tier, ctx.seed)]):
+        ctx.merge(r)
     for r in common.pmap(work_purge, [(ctx.tier, ctx.seed, hx, hy) for hx, hy in purge_histories()]):
         ctx.merge(r)
     c = ctx.counters
